@@ -155,7 +155,9 @@ def rule_raw_deref(ctx):
             run.violation(R, key(f.module.relpath, f.qualname, kk),
                           "%s can escape: `%s` is evaluated on a value taken from the input before it was validated (it may be %s) "
                           "and no enclosing try catches it" % (fd.kind, fd.what, "any JSON value: null, number, string, list or object"
-                                                                if fd.shape == ANY else "a mapping without that key"),
+                                                                if fd.shape == ANY else ("a member name of the input, possibly the "
+                                                                                         "empty string" if fd.shape == "STR" else
+                                                                                         "a mapping without that key")),
                           file=f.module.relpath, line=fd.node.lineno, function=f.qualname,
                           expected="shape/presence test before the dereference (or a catching try)", found=short(fd.node))
     # contract of detect_spec_version: every call from a zone function is dominated by a presence test for 'type'
@@ -414,6 +416,63 @@ def rule_registry_class_attr(ctx):
                       "input, but not every registrable class has that attribute (only toplevel-property extensions built by "
                       "the custom builder do)" % norm(x), file=fi.module.relpath, line=x.lineno, function=fi.qualname,
                       expected="getattr(%s, '%s', <default>) or a hasattr test" % (x.value.id, attr), found=norm(x))
+    # ... and what is read from a registry class is never modified: a dictionary taken from it and then updated / stored into
+    # changes the registered class for the rest of the process -- also when the construction that did it fails
+    from ..cfg import ReachingDefs, cfg_of
+    for fi in sorted(prog.functions.values(), key=lambda f: f.id):
+        in_zone = fi.module.name == "stix2.parsing" or (fi.cls is not None and sbase in fi.cls.mro and fi.name == "__init__")
+        if not in_zone or fi.module.relpath.startswith("stix2/test"):
+            continue
+        regvars = {a.targets[0].id for a in body_walk(fi.node) if isinstance(a, ast.Assign) and len(a.targets) == 1
+                   and isinstance(a.targets[0], ast.Name) and any(isinstance(c, ast.Call) and call_simple_name(c) == "class_for_type"
+                                                                     for c in ast.walk(a.value))}
+        if not regvars:
+            continue
+
+        def from_registry(e):
+            for x in ast.walk(e):
+                if isinstance(x, ast.Attribute) and isinstance(x.value, ast.Name) and x.value.id in regvars:
+                    # only when the attribute value itself can be the result (not an argument of a copying call)
+                    par = getattr(x, "parent", None)
+                    if not (isinstance(par, ast.Call) and call_simple_name(par) in ("dict", "list", "set", "copy", "deepcopy", "OrderedDict", "update")):
+                        return True
+                if isinstance(x, ast.Call) and call_simple_name(x) == "getattr" and x.args and isinstance(x.args[0], ast.Name) \
+                        and x.args[0].id in regvars:
+                    par = getattr(x, "parent", None)
+                    while isinstance(par, (ast.BoolOp, ast.IfExp)):
+                        par = getattr(par, "parent", None)
+                    if not (isinstance(par, ast.Call) and call_simple_name(par) in ("dict", "list", "set", "copy", "deepcopy", "OrderedDict", "update")):
+                        return True
+            return False
+        aliases = set()
+        for a in body_walk(fi.node):
+            if isinstance(a, ast.Assign) and len(a.targets) == 1 and isinstance(a.targets[0], ast.Name) and from_registry(a.value):
+                aliases.add(a.targets[0].id)
+        changed = True
+        while changed:
+            changed = False
+            for a in body_walk(fi.node):
+                if isinstance(a, ast.Assign) and len(a.targets) == 1 and isinstance(a.targets[0], ast.Name) \
+                        and a.targets[0].id not in aliases and any(
+                            isinstance(x, ast.Name) and x.id in aliases for x in ([a.value] if isinstance(a.value, ast.Name) else (
+                                a.value.values if isinstance(a.value, ast.BoolOp) else ([a.value.body, a.value.orelse] if isinstance(a.value, ast.IfExp) else [])))):
+                    aliases.add(a.targets[0].id)
+                    changed = True
+        muts = []
+        for x in body_walk(fi.node):
+            if isinstance(x, ast.Call) and isinstance(x.func, ast.Attribute) and isinstance(x.func.value, ast.Name) \
+                    and x.func.value.id in aliases and x.func.attr in ("update", "setdefault", "pop", "popitem", "clear", "append", "extend", "add", "remove"):
+                muts.append(x)
+            if isinstance(x, (ast.Assign, ast.AugAssign)):
+                for t in (x.targets if isinstance(x, ast.Assign) else [x.target]):
+                    if isinstance(t, ast.Subscript) and isinstance(t.value, ast.Name) and t.value.id in aliases:
+                        muts.append(x)
+        n += 1
+        run.check(not muts, R, key(fi.module.relpath, fi.qualname, "registry-objects-not-modified"),
+                  "a dictionary taken from a registered class (%s) is modified in place: the registered class itself changes -- "
+                  "for every later object of that type, and even if this construction fails" % ", ".join(sorted(aliases)),
+                  file=fi.module.relpath, line=muts[0].lineno if muts else fi.node.lineno, function=fi.qualname,
+                  expected="copy before modifying (or only read)", found=[short(m_) for m_ in muts])
     run.extra["registry_class_attribute_reads"] = n
     if n < 1:
         raise AnalysisError("no attribute read from a registry class found in the pre-clean code")
